@@ -203,6 +203,13 @@ def check(ctx):
     alphabet = "0123456789abcxyzemsEXC_.+-*/%^!|<>=(){}[],:;\"# \t\n€$£¥±μ\\'&?@~`"
     for _ in range(ctx.n(1500, 120000)):
         run("".join(rng.choice(alphabet) for _ in range(rng.randrange(0, 14))), "chars")
+    # instant literals whose body is a NUMBER in some spelling (a count of seconds, a Julian day, a year far out …): whatever such
+    # a body means — an error today — it is a value inside the calendar or a diagnosed error, wherever the literal sits
+    for pre in ["", "@", "+", "-", "@-", "@+", "T", "J", "JD", "unix:", "epoch "]:
+        for nd in (1, 4, 5, 8, 10, 11, 12, 13, 14, 16, 19, 20, 25, 40):
+            body = pre + str(rng.randrange(1, 10)) + "".join(rng.choice("0123456789") for _ in range(nd - 1))
+            for text in ("#%s#" % body, "x = 1; #%s# + 1" % body, "#%s.5#" % body):
+                run(text, "instant-number-body")
     for text in ["", " ", ";", ";;", "1;", ";1", "%", "(", ")", "1 +", "x =", "=", "1e", "1e-", "0x", "0b2", "#", "\"", "{", "[1,", "f(", "f(1,", "1..", "..1",
                  "1 to", "to m", "1 m to", "1 m |", "1 m^", "1 m^x", "1 m^1.5", "instant", "1.5e400", "2^20000", "10^5000/3", "1/(10^400) + 0.5",
                  "sample(Geometric(1))", "max(5)", "max()", "range(1,2,0)", "1" + "0" * 400 + ".0", "1" + "0" * 400 + ".5 + 1", "1" + "0" * 308 + ".0", "9" * 309 + ".9", "1" + "0" * 400 + ".5e-200", "0." + "0" * 400 + "1",
